@@ -477,6 +477,15 @@ void apply_patch(Json& target, const Json& patch, std::error_code& ec)
                 return;
             }
 
+            // RFC 6902, section 4.4: the "from" location must not be a proper prefix of the "path" location
+            if (from_pointer.tokens().size() < location.tokens().size() &&
+                std::equal(from_pointer.tokens().begin(), from_pointer.tokens().end(), location.tokens().begin()))
+            {
+                ec = jsonpatch_errc::move_failed;
+                unwinder.state =jsoncons::jsonpatch::detail::state_type::abort;
+                return;
+            }
+
             Json val = jsonpointer::get(target, from_pointer, local_ec);
             if (local_ec)
             {
